@@ -823,6 +823,7 @@ func WriteVariants(w io.Writer, start, end int, firstmissing bool, appendSNP boo
 func AggregateWriteVariants(w io.Writer, start, end int, appendSNP bool, threshold float64, refID string, cVariants chan AnnoStructs, cWriteDone chan bool, cErr chan error) {
 
 	propMap := make(map[Variant]float64)
+	byRep := make(map[string]Variant) // the (leftmost) variant that stands for each printed mutation
 
 	var err error
 
@@ -839,6 +840,9 @@ func AggregateWriteVariants(w io.Writer, start, end int, appendSNP bool, thresho
 			continue
 		}
 		counter++
+		// a mutation is what gets printed: it is counted once per sequence, however many features
+		// (e.g. two CDS with the same name) give rise to the same text
+		seen := make(map[string]bool)
 		for _, v := range AS.Vs {
 			if (start > 0 && v.Position < start) || (end > 0 && v.Position > end) {
 				continue
@@ -848,8 +852,19 @@ func AggregateWriteVariants(w io.Writer, start, end int, appendSNP bool, thresho
 				cErr <- err
 				return
 			}
+			if seen[rep] {
+				continue
+			}
+			seen[rep] = true
 			Vskinny := Variant{RefAl: v.RefAl, QueAl: v.QueAl, Position: v.Position, Residue: v.Residue, Changetype: v.Changetype, Feature: v.Feature, Length: v.Length, Representation: rep}
-			propMap[Vskinny]++
+			if first, ok := byRep[rep]; !ok || Vskinny.Position < first.Position {
+				if ok {
+					propMap[Vskinny] = propMap[first]
+					delete(propMap, first)
+				}
+				byRep[rep] = Vskinny
+			}
+			propMap[byRep[rep]]++
 		}
 	}
 
